@@ -75,7 +75,13 @@ func supervise(c *engine.Chooser, scenario string, choices []int, labels []strin
 	default:
 		ms := sigLine.FindAllStringSubmatch(s, -1)
 		for _, m := range ms {
-			fail(m[1], "%s", m[2])
+			sig := m[1]
+			// an unbounded recursion is seen as a hang until the 1 GB stack is exhausted: on a slow machine the child's
+			// watchdog fires first. Same defect, same signature as the fatal error.
+			if i := strings.Index(crashSig, "@"); i >= 0 && sig == "C19/accept/dist/hang-after-acceptance"+crashSig[i:] && strings.Contains(crashSig, "ternary-P-not-a-probability") {
+				sig = crashSig
+			}
+			fail(sig, "%s", m[2])
 		}
 		if len(ms) == 0 && runErr != nil && !strings.Contains(s, "no violation on replay") {
 			panic(fmt.Sprintf("harness: child failed without verdict: %v\n%s", runErr, s))
